@@ -527,8 +527,13 @@ def run(ctx):
                     if cr is None:
                         raise RuntimeError('crash without breadcrumb: %r' % r)
                     tag, name, kwl = cr['ident']
-                    add(name, 'crash', dict(kwl), r.reason, cr['cfg'],
-                        cr['klass'])
+                    kl = cr['klass']
+                    if kl.startswith('threads:'):
+                        # a crash while several threads fill the cache is
+                        # memory corruption: where it strikes varies from
+                        # run to run, so the input class is not in the key
+                        kl = 'threads'
+                    add(name, 'crash', dict(kwl), r.reason, cr['cfg'], kl)
                     ent = [name, cr['klass']]
                     if ent not in skip:
                         skip.append(ent)
